@@ -36,13 +36,58 @@ def generate(gen, tier):
             b = gen.tree(depth=2, width=3)
         else:
             b = relabel_leaves(gen, base)
-        c = substitute_leaves(gen, relabel_leaves(gen, base), 0.3, 2) if rng.random() < 0.5 else None
+        c = None
+        cr = rng.random()
+        if cr < 0.3:
+            c = substitute_leaves(gen, relabel_leaves(gen, base), 0.3, 2)
+        elif cr < 0.6:
+            # structure that the other operands lack but that keeps every leaf count unchanged: one-child
+            # containers, a None sibling, an empty container next to the leaf (n-ary broadcast must still re-broadcast)
+            c = thin_substitute(gen, relabel_leaves(gen, base), 0.5, nil=(cfg[1] == '1'))
         sa, sb = [A('structure'), cfg, a], [A('structure'), cfg, b]
         lines = [op('spec', [A('bcast'), sa, sb]), op('spec', [A('bcast'), sb, sa]),
                  op('paths', [A('bcast'), sa, sb]), op('is_enc', [A('bcast'), sa, sb])]
+        # the Python layer on top of the merge walk: tree_broadcast_prefix / broadcast_prefix, tree_broadcast_common,
+        # tree_broadcast_map* over two and three operands (operand order matters for the two-pass n-ary loop)
+        variant = rng.choice(['plain', 'plain', 'path', 'acc'])
+        fid = rng.choice([1, 2, 0])
+        lines += [op('bprefix', cfg, a, b), op('bcommon', cfg, a, b), op('bmap', A(variant), cfg, fid, a, b)]
+        if c is not None:
+            order = rng.choice([[a, b, c], [a, c, b], [c, a, b], [b, a, c]])
+            lines += [op('bmap', A('plain'), cfg, 1, a, b, c), op('bmap', A(variant), cfg, fid, *order)]
         cases.append({'lines': lines, 'o': {'cfg': render(cfg), 'a': render(a), 'b': render(b),
                                             'c': render(c) if c is not None else None, 'class': cls}})
     return cases
+
+
+def thin_substitute(gen, t, p, nil):
+    """a suffix of `t` with as many leaves as `t`: some leaves wrapped in one-child containers, given a `None`
+    sibling (when None is not a leaf) or an empty-container sibling"""
+    from gen import map_children
+    rng = gen.rng
+    if isinstance(t, Atom):
+        return t
+    if t[0] == 'L':
+        x = t
+        while rng.random() < p:
+            k = rng.choice(['T1', 'l1', 'D1', 'Tn', 'Te', 'le', 'Q1'])
+            if k == 'T1':
+                x = [A('T'), x]
+            elif k == 'l1':
+                x = [A('l'), x]
+            elif k == 'D1':
+                x = [A(rng.choice(['D', 'O'])), [[A('s'), rng.choice(['k', 'a'])], x]]
+            elif k == 'Q1':
+                x = [A('Q'), A('N'), x]
+            elif k == 'Tn':
+                x = [A('T'), x, A('N')] if (not nil and rng.random() < 0.5) else [A('T'), [A('T')], x]
+            elif k == 'Te':
+                x = [A('T'), x, [A('l')]]
+            else:
+                x = [A('l'), [A('T')], x]
+            p = p * 0.6
+        return x
+    return map_children(t, lambda c: thin_substitute(gen, c, p, nil))
 
 
 def nontrivial(case):
@@ -66,7 +111,8 @@ def outcome(f):
 
 
 def hp(p):
-    return tuple(getattr(e, 'uid', e) if not isinstance(e, (int, str, tuple)) else e for e in p)
+    # user-object keys are identified by ('o', uid): a bare uid could collide with an int key of the same dict
+    return tuple(('o', e.uid) if (not isinstance(e, (int, str, tuple)) and hasattr(e, 'uid')) else e for e in p)
 
 
 def state_of(u, spec):
@@ -321,6 +367,24 @@ def oracle(impl, o):
                             break
         elif rm[1] != 'ValueError':
             fails.append({'key': 'bmap-error-type', 'what': f'tree_broadcast_map raised {rm[1]}: {rm[2]}'})
+        else:
+            # a ValueError is right only if the operands have no common suffix (some pair conflicts)
+            spec_all, ok = optree.tree_structure(trees[0], **kw), True
+            for t in trees[1:]:
+                rs = outcome(lambda: spec_all.broadcast_to_common_suffix(optree.tree_structure(t, **kw)))
+                if rs[0] != 'ok':
+                    ok = False
+                    break
+                spec_all = rs[1]
+            if ok and all(outcome(lambda: optree.tree_structure(t, **kw) <= spec_all)[1:] == (True,) for t in trees):
+                fails.append({'key': 'bmap-rejects-compatible', 'what': f'the {len(trees)} operands have a common suffix but tree_broadcast_map raised ValueError: {rm[2]}',
+                              'common': repr(spec_all)[:200]})
+        # every operand order must be accepted or rejected alike
+        if len(trees) == 3:
+            rm2 = outcome(lambda: optree.tree_broadcast_map(lambda *xs: 0, trees[0], trees[2], trees[1], **kw))
+            if (rm2[0] == 'ok') != (rm[0] == 'ok'):
+                fails.append({'key': 'bmap-order-dependent', 'what': 'tree_broadcast_map succeeds for one order of the extra operands and fails for the other',
+                              'first': repr(rm[1:])[:150], 'second': repr(rm2[1:])[:150]})
     return fails
 
 
